@@ -99,7 +99,7 @@ func (f *Formatter) formatImportStatement(stmt *ast.ImportStatement) string {
 
 	buf.Reset()
 	buf.WriteString("import ")
-	buf.WriteString(stmt.Name.String())
+	buf.WriteString(f.inline(stmt.Name.Meta, stmt.Name.Value))
 	buf.WriteString(";")
 
 	return buf.String()
@@ -165,8 +165,8 @@ func (f *Formatter) formatDeclareStatement(stmt *ast.DeclareStatement) string {
 	if v := f.formatComment(stmt.Infix, " ", 0); v != "" {
 		buf.WriteString(v)
 	}
-	buf.WriteString("local " + stmt.Name.String())
-	buf.WriteString(" " + stmt.ValueType.String())
+	buf.WriteString("local " + f.inline(stmt.Name.Meta, stmt.Name.Value))
+	buf.WriteString(" " + f.inline(stmt.ValueType.Meta, stmt.ValueType.Value))
 	if stmt.Value != nil {
 		buf.WriteString(" = ")
 		buf.WriteString(f.formatExpression(stmt.Value).ChunkedString(stmt.Nest, buf.Len()))
@@ -182,7 +182,7 @@ func (f *Formatter) formatSetStatement(stmt *ast.SetStatement) string {
 	defer bufferPool.Put(buf)
 
 	buf.Reset()
-	buf.WriteString("set " + stmt.Ident.String())
+	buf.WriteString("set " + f.inline(stmt.Ident.Meta, stmt.Ident.Value))
 	buf.WriteString(" " + stmt.Operator.Operator + " ")
 	buf.WriteString(f.formatExpression(stmt.Value).ChunkedString(stmt.Nest, buf.Len()))
 	buf.WriteString(";")
@@ -196,7 +196,7 @@ func (f *Formatter) formatUnsetStatement(stmt *ast.UnsetStatement) string {
 	defer bufferPool.Put(buf)
 
 	buf.Reset()
-	buf.WriteString("unset " + stmt.Ident.String())
+	buf.WriteString("unset " + f.inline(stmt.Ident.Meta, stmt.Ident.Value))
 	buf.WriteString(";")
 
 	return buf.String()
@@ -212,9 +212,9 @@ func (f *Formatter) formatRemoveStatement(stmt *ast.RemoveStatement) string {
 	// The "remove" statement is alias of "unset" statement,
 	// so it could replaced to unset by configuration
 	if f.conf.ShouldUseUnset {
-		buf.WriteString("unset " + stmt.Ident.String())
+		buf.WriteString("unset " + f.inline(stmt.Ident.Meta, stmt.Ident.Value))
 	} else {
-		buf.WriteString("remove " + stmt.Ident.String())
+		buf.WriteString("remove " + f.inline(stmt.Ident.Meta, stmt.Ident.Value))
 	}
 	buf.WriteString(";")
 
@@ -487,7 +487,7 @@ func (f *Formatter) formatAddStatement(stmt *ast.AddStatement) string {
 	defer bufferPool.Put(buf)
 
 	buf.Reset()
-	buf.WriteString("add " + stmt.Ident.String())
+	buf.WriteString("add " + f.inline(stmt.Ident.Meta, stmt.Ident.Value))
 	buf.WriteString(" " + stmt.Operator.Operator + " ")
 	buf.WriteString(f.formatExpression(stmt.Value).ChunkedString(stmt.Nest, buf.Len()))
 	buf.WriteString(";")
@@ -501,7 +501,7 @@ func (f *Formatter) formatCallStatement(stmt *ast.CallStatement) string {
 	defer bufferPool.Put(buf)
 
 	buf.Reset()
-	buf.WriteString("call " + stmt.Subroutine.String())
+	buf.WriteString("call " + f.inline(stmt.Subroutine.Meta, stmt.Subroutine.Value))
 
 	// Add function arguments if specified
 	if len(stmt.Arguments) > 0 {
@@ -624,7 +624,7 @@ func (f *Formatter) formatGotoStatement(stmt *ast.GotoStatement) string {
 	defer bufferPool.Put(buf)
 
 	buf.Reset()
-	buf.WriteString("goto " + stmt.Destination.String())
+	buf.WriteString("goto " + f.inline(stmt.Destination.Meta, stmt.Destination.Value))
 	buf.WriteString(";")
 
 	return buf.String()
